@@ -54,52 +54,26 @@ Fixpoint has_res (t : tstruct) : bool :=
   | TTuple l => existsb has_res l
   end.
 
-(* ---- add_types_prefix: what it gets right ----
-   It understands exactly: a primitive, a name, (primitive | name)[], anything followed by | null,
-   and it leaves Record<..> and [..] texts untouched. *)
-Fixpoint head_is_map (t : tstruct) : bool :=
+(* ---- add_types_prefix (after the repair C05-4-prefix-composite) ----
+   It qualifies a name, recurses through T[] and T | null, and leaves Record<..> and [..] texts
+   untouched (pinned by unit tests): wrong exactly when, below any number of [] and | null, the text is
+   a Record<..> or a tuple that mentions a declared name. *)
+Fixpoint spine_core (t : tstruct) : tstruct :=
   match t with
-  | TMap _ _ => true
-  | TArr u | TSet u | TOpt u | TRes u => head_is_map u
-  | _ => false
-  end.
-(* element type of a (possibly nested) sequence: what remains under [] [] .. ; Result is transparent *)
-Fixpoint seq_core (t : tstruct) : tstruct :=
-  match t with
-  | TArr u | TSet u => seq_core u
-  | TRes u => seq_core u
+  | TArr u | TSet u | TOpt u | TRes u => spine_core u
   | _ => t
   end.
-Fixpoint seq_depth (t : tstruct) : nat :=
-  match t with
-  | TArr u | TSet u => S (seq_depth u)
-  | TRes u => seq_depth u
+(* 0: handled correctly; 1: a declared name is left without the namespace *)
+Definition pfx_class (t : tstruct) : nat :=
+  match spine_core t with
+  | TMap _ _ => if has_custom (spine_core t) then 1 else 0
+  | TTuple (_ :: _) => if has_custom (spine_core t) then 1 else 0
   | _ => 0
-  end.
-(* 0: handled correctly; 1: a declared name is left without the namespace (inside Record<..> or a
-   tuple); 2: the namespace is put in front of something that is not a declared name
-   (string[][] , Record<..>[] , [..][]) *)
-Fixpoint pfx_class (t : tstruct) : nat :=
-  match t with
-  | TPrim _ | TCustom _ => 0
-  | TRes u => pfx_class u
-  | TOpt u => if head_is_map u then (if has_custom u then 1 else 0) else pfx_class u
-  | TArr u | TSet u =>
-      match seq_core u with
-      | TCustom _ => 0                                   (* types.N[][].. is right at any depth *)
-      | TPrim _ | TTuple [] => if Nat.eqb (seq_depth u) 0 then 0 else 2
-      | _ => 2
-      end
-  | TTuple [] => 0
-  | TMap _ _ | TTuple _ => if has_custom t then 1 else 0
   end.
 
 (* ---- the classes ---- *)
 Inductive kclass :=
-| KResultComma      (* extract_result_ok_type cuts at the first comma *)
-| KTupleComma       (* extract_tuple_types splits at every comma *)
 | KUnionUnderSeq    (* T | null[] : no parentheses around a union under [] *)
-| KPrefixComposite  (* add_types_prefix in front of a composite element type *)
 | KPrefixUnqualified(* add_types_prefix leaves names inside Record<..> / [..] unqualified *)
 | KZodOptional      (* schema builder: Option is .optional(), which rejects null *)
 | KZodSet           (* schema builder: z.set(..) is not a JSON array *)
@@ -108,10 +82,7 @@ Inductive kclass :=
 Definition in_class (k : kclass) (s : site) (md : mode) (m : mapping) (t : rty) : bool :=
   let ts := msubst m (sem t) in
   match k with
-  | KResultComma => kf_result_ok_has_comma t
-  | KTupleComma => kf_tuple_elem_has_comma t
   | KUnionUnderSeq => site_is_type s md && kf_union_under_seq ts
-  | KPrefixComposite => site_qualified s && Nat.eqb (pfx_class ts) 2
   | KPrefixUnqualified => site_qualified s && Nat.eqb (pfx_class ts) 1
   | KZodOptional => negb (site_is_type s md) && (has_opt ts || match s with SParam => is_optional t | _ => false end)
   | KZodSet => negb (site_is_type s md) && has_set ts
@@ -119,7 +90,7 @@ Definition in_class (k : kclass) (s : site) (md : mode) (m : mapping) (t : rty) 
   end.
 
 Definition all_classes : list kclass :=
-  [KResultComma; KTupleComma; KUnionUnderSeq; KPrefixComposite; KPrefixUnqualified; KZodOptional; KZodSet; KZodResult].
+  [KUnionUnderSeq; KPrefixUnqualified; KZodOptional; KZodSet; KZodResult].
 Definition classes_of (s : site) (md : mode) (m : mapping) (t : rty) : list kclass :=
   filter (fun k => in_class k s md m t) all_classes.
 Definition kf_C05 (s : site) (md : mode) (m : mapping) (t : rty) : bool :=
